@@ -48,6 +48,9 @@ def linear(rng, n, length, restart="none", byz=0.0, dormant=True):
             t.ops.append(["S", 0])
         elif restart == "real" and rng.random() < 0.3:
             t.ops.append(["R", 0])
+        if rng.random() < 0.08:
+            # ForceResetHeight around the LIB / the tip (0 = disabled)
+            t.ops.append(["F", 0, rng.choice([0, 1, max(1, i - n), max(1, i - 2 * n), i + 1, i + 5])])
     return {"n": n, "nodes": 1, "self": [rng.randrange(-1, n)], "ops": t.ops}
 
 
@@ -280,6 +283,96 @@ def chain_scenario(rng, phases):
                     tip = mk(tip)
                     deliver(tip)
     return {"chain": True, "ops": ops}
+
+
+def election_scenario(rng, with_fork=True, bpcount_change=True):
+    """One node, chain long enough to cross the election boundaries 100, 200, 300, 400 (bootstrap
+    height 300: the snapshot taken at 200 is first used for block 301).  Block states carry a vote
+    ranking and a BPCOUNT; producers are drawn from the producer set in force on their branch; a
+    fork below a boundary whose branch commits a different ranking at the reference height is grown
+    until it wins (reorganisation across the boundary); shadow restarts around the boundaries."""
+    n = rng.choice([3, 4, 5])
+    pool = list(range(8))
+    gen = list(range(n))
+    ops = []
+    states = {0: ([], n)}
+    blocks = {0: dict(parent=None, no=0, sid=0)}
+    nid = [1]
+    lpb = {}
+
+    def new_state(count):
+        r = rng.sample(pool, rng.randrange(max(count, 3), 8))
+        sid = len(states)
+        states[sid] = (r, count)
+        ops.append(["T", sid, r, count])
+        return sid
+
+    def anc(i, h):
+        while blocks[i]["no"] > h:
+            i = blocks[i]["parent"]
+        return i
+
+    def cluster(i):
+        k = blocks[i]["no"]
+        r = 0 if k < 300 else (k // 100 - 1) * 100
+        if r == 0:
+            return gen
+        rk, c = states[blocks[anc(i, r)]["sid"]]
+        return rk[:c] or gen
+
+    def mk(parent, sid):
+        no = blocks[parent]["no"] + 1
+        bp = rng.choice(cluster(parent))
+        conf = max(1, no - lpb.get(bp, 0))
+        lpb[bp] = no
+        i = nid[0]
+        nid[0] += 1
+        blocks[i] = dict(parent=parent, no=no, sid=sid)
+        ops.append(["B", i, parent, bp, conf, sid])
+        ops.append(["D", 0, i])
+        return i
+
+    count = n
+    sid = new_state(count)
+    tip = 0
+    fork_at = rng.choice([150, 195, 199, 250, 295, 299, 305, 350]) if with_fork else None
+    change_at = sorted(rng.sample(range(20, 420), 4))
+    count_at = rng.randrange(120, 390) if bpcount_change else None
+    length = rng.randrange(405, 440)
+    fork_tip = None
+    fork_when = fork_at + rng.randrange(5, 20) if with_fork else None
+    for k in range(1, length + 1):
+        if k in change_at:
+            sid = new_state(count)
+        if k == count_at:
+            count = max(2, count + rng.choice([-1, 1, 2]))
+            sid = new_state(count)
+        tip = mk(tip, sid)
+        if k % 100 in (99, 0, 1) or rng.random() < 0.02:
+            ops.append(["S", 0])
+        elif rng.random() < 0.01:
+            ops.append(["R", 0])
+        if fork_at is not None and k == fork_when and fork_tip is None:
+            # side branch from fork_at with its own states, grown past the main tip
+            fork_tip = anc(tip, fork_at)
+            fsid = new_state(count)
+            target = blocks[tip]["no"] + rng.randrange(1, 110)
+            while blocks[fork_tip]["no"] < target:
+                if rng.random() < 0.03:
+                    fsid = new_state(count)
+                fork_tip = mk(fork_tip, fsid)
+            ops.append(["S", 0])
+            tip, sid = fork_tip, fsid
+            if blocks[tip]["no"] >= length:
+                break
+    return {"election": True, "n": n, "nodes": 1, "self": [rng.randrange(0, n)], "ops": ops}
+
+
+def generate_election(rng, quick):
+    out = [election_scenario(rng, with_fork=False, bpcount_change=False), election_scenario(rng), election_scenario(rng)]
+    if not quick:
+        out += [election_scenario(rng) for _ in range(25)]
+    return out
 
 
 def generate_chain(rng, quick):
